@@ -16,12 +16,13 @@ events on `drain`.
 
 Ops (a case starts with `reset [next=<counter>]`):
   open c=K | in c=K it=<f:pk,pk,..|bad|err|eof> | rd c=K [w=0] | rds c=K [w=0] | wr c=K ok=<0|1> |
-  adv dt=MS | kick c=K | okick c=K | push c=K | spush c=K | drain | end
+  adv dt=MS | kick c=K | okick c=K | push c=K | mpush ids=<cK|u<n>,..> | spush c=K | fill c=K n=N | arm <op> | go | drain | end
+  (`open` options: cbp=<h|c> panicking close callback, ce=<1|f> conn.Close() returns an error (always | first call))
 packets: hs1 hs0 ack d<mid> x<mid> hb ot.
 
 Observation: one record per connection, `;`-separated, then ` | live=<ids> g=<goroutines>`:
   cK:st=<1-4>,rd=<w|h|m|x>,wr=<p|->,cc=<conn.Close calls>,nw=<writes>,hw=<handshake responses>,
-     ev=<A|M<mid>|R …; nothing is recorded after R>,ow=<a<id>|m<mid>|n<mid>|r<h><c> …>[,r=<ok|closed>]
+     np=<pushes handed to it by the owner's PushMsg>,ev=<A|M<mid>|R …; nothing is recorded after R>,ow=<a<id>|m<mid>|n<mid>|r<h><c> …>[,r=<ok|closed>]
 
 tcp smoke engine (real TCPAcceptor, real time): `reset-tcp pk=<pk,..> tail=<hex>` = one whole connection;
 observation `ev=..,ow=<a|m<mid>|r11 …>,eof=<server closed the socket>,g=<goroutines left>`.
@@ -44,6 +45,7 @@ structure Conn where
   id : Nat := 0              -- id given by the owner (0 = not yet added)
   ow : List OwEv := []
   cbp : String := ""         -- scripted close callbacks that panic: h = the handler's per-session one, c = the sessions' one
+  np : Nat := 0              -- pushes the owner's PushMsg handed to this session
 
 structure D where
   conns : List Conn := []
@@ -174,7 +176,7 @@ def evShown : List Ev → List Ev
   | e :: r => e :: evShown r
 
 def showConn (c : Conn) (extra : String) : String :=
-  s!"c{c.k}:st={c.s.status.toNat},rd={rdName c},wr={if c.s.wr == .inw then "p" else "-"},cc={c.s.connCloses},nw={c.s.writes},hw={c.hw},ev={String.join ((evShown c.s.posted).map showEv)},ow={String.join (c.ow.map (showOw c.cbp))}" ++ extra
+  s!"c{c.k}:st={c.s.status.toNat},rd={rdName c},wr={if c.s.wr == .inw then "p" else "-"},cc={c.s.connCloses},nw={c.s.writes},hw={c.hw},np={c.np},ev={String.join ((evShown c.s.posted).map showEv)},ow={String.join (c.ow.map (showOw c.cbp))}" ++ extra
 
 def goroutines (d : D) : Nat :=
   d.conns.foldl (fun a c => a + (if c.s.rd == .done then 0 else 1) + (if c.s.wr == .done then 0 else 1) +
@@ -319,9 +321,26 @@ def stepCore (d : D) (line : String) : D × String :=
     match findConn d k with
     | some c =>
       if isLive d c && wouldBlock c then (d, "none") else
-      let d := if isLive d c then settleAll (putConn d { c with s := fireL c.s [.push] }) else d
+      let d := if isLive d c then settleAll (putConn d { c with s := fireL c.s [.push], np := c.np + 1 }) else d
       (d, showObs d k "")
     | none => (d, "none")
+  | some "mpush" =>
+    -- one PushMsg for several ids; each id is looked up in the sessions map in turn, an unknown one is skipped
+    let toks := ((kv ws "ids").getD "").splitOn ","
+    let ids : List (Option Nat) := toks.map fun w =>
+      if w.startsWith "c" then ((w.drop 1).toString.toNat?).bind (fun n => (findConn d n).map (·.id))
+      else if w.startsWith "u" then ((w.drop 1).toString.toNat?).map (fun n => 3000000000 + n)
+      else none
+    if ids.any (·.isNone) then (d, "none") else
+    let targets : List Nat := ids.filterMap fun o => o.bind fun id => (d.live.find? (·.1 == id)).map (·.2)
+    -- a push that finds the queue full would park the owner: such an op is not run
+    if targets.any (fun k => match findConn d k with
+        | some c => c.s.status != .closed && c.s.closed == false && c.s.sendq + (targets.filter (· == k)).length > sendCap
+        | none => false) then (d, "none") else
+    let d := targets.foldl (fun d k => match findConn d k with
+      | some c => settleAll (putConn d { c with s := fireL c.s [.push], np := c.np + 1 })
+      | none => d) d
+    (d, showObs d 0 "")
   | some "fill" =>
     -- application pushes up to the capacity of chSend while the writer is parked in Write
     match findConn d k with
@@ -389,6 +408,8 @@ structure Sp where
   conns : List SpConn := []
   now : Nat := 0
   armed : Option String := none
+  prev : List (Nat × Option Nat × Nat) := []   -- per connection after the previous op: (connection, its session id if added, pushes received)
+  prevLive : List Nat := []                     -- ids registered at the owner after the previous op
   deriving Inhabited
 
 /-- split `A`, `M123`, `R` / `a2`, `m5`, `n5`, `r11` sequences: a token starts at a letter -/
@@ -440,6 +461,7 @@ def checkConn (sp : Sp) (atEnd : Bool) (k : Nat) (fs : List String) (allOw : Lis
   else if na > 1 || (na == 1 && !(ow.head?.getD "").startsWith "a") then some s!"C05/session-add-missing-or-twice connection {k}: owner saw {ow}"
   else if nR > 1 then some s!"C05/session-remove-twice connection {k}: OnSessionClose called {nR} times"
   else if nr > 1 then some s!"C05/session-remove-twice connection {k}: owner saw {ow}"
+  else if cc ≥ 1 && nR == 0 then some s!"C05/no-session-remove connection {k}: conn.Close() was called but OnSessionClose never was"
   else if cc > 1 || cc != nR then some s!"C05/conn-close-count connection {k}: conn.Close called {cc} times, OnSessionClose {nR} times"
   else if ow.any (·.startsWith "n") then some s!"C05/message-after-remove connection {k}: handler invoked without a session: {ow}"
   else if afterR.any (fun t => t.startsWith "m" || t.startsWith "n") then some s!"C05/message-after-remove connection {k}: {ow}"
@@ -547,10 +569,31 @@ def specStep (sp : Sp) (line : String) : Sp × String :=
       let stale := allOw.find? fun p => p.2.any (·.startsWith "r") &&
         (match (p.2.find? (·.startsWith "a")).map numOf with | some id => liveIds.contains id | none => false) &&
         !(allOw.any fun q => q.1 != p.1 && !(q.2.any (·.startsWith "r")) && (q.2.find? (·.startsWith "a")).map numOf == (p.2.find? (·.startsWith "a")).map numOf)
+      -- pushes through the owner: every id of the push that is registered gets it once per occurrence, nobody else gets anything
+      let cur : List (Nat × Option Nat × Nat) := rs.map fun p =>
+        (p.1, ((tokens ((kv p.2 "ow").getD "")).find? (·.startsWith "a")).map numOf, (kvNat p.2 "np").getD 0)
+      let idOf (k : Nat) : Option Nat := (sp.prev.find? (·.1 == k)).bind (·.2.1)
+      let pushedIds : Option (List (Option Nat)) :=
+        if ws.head? == some "push" then some [idOf kOp]
+        else if ws.head? == some "mpush" then
+          some (((kv ws "ids").getD "").splitOn "," |>.map fun w =>
+            if w.startsWith "c" then ((w.drop 1).toString.toNat?).bind idOf else none)
+        else none
+      let pushBad : Option String := pushedIds.bind fun ids =>
+        cur.findSome? fun (k, _, np) =>
+          let old := (sp.prev.find? (·.1 == k))
+          let oldNp := (old.map (·.2.2)).getD 0
+          let want := match old.bind (·.2.1) with
+            | some id => if sp.prevLive.contains id then (ids.filter (· == some id)).length else 0
+            | none => 0
+          if np == oldNp + want then none
+          else some s!"C05/push-delivery connection {k}: {op}: the owner handed it {np - oldNp} pushes, {want} expected (registered ids of the push get it once each, whatever else is in the id list)"
+      let sp := { sp with prev := cur, prevLive := liveIds }
       match rs.findSome? (fun p => checkConn sp atEnd p.1 p.2 allOw) with
       | some v => (sp, "VIOLATION " ++ v)
       | none =>
-        if let some p := stale then
+        if let some v := pushBad then (sp, "VIOLATION " ++ v)
+        else if let some p := stale then
           (sp, s!"VIOLATION C05/removed-session-still-live connection {p.1}: the owner saw its session-removed but the session is still registered: live={(kv tws "live").getD ""}")
         else if wrFail && rs.any (fun p => p.1 == kOp && !(tokens ((kv p.2 "ev").getD "")).any (· == "R")) then
           (sp, s!"VIOLATION C05/no-session-remove connection {kOp}: a failed write did not end the session")
